@@ -63,6 +63,19 @@ CHECKS = {
              "rejection depends on it. Does not decide the equality of the "
              "two parses itself.",
         ref="DESIGN.md §3 C04"),
+    "C05": dict(
+        technique="template extraction (taint/template domain) of the NUMBER "
+                  "lowering + exact-constructor vocabulary check; structural "
+                  "rules on the lexer's number branch",
+        category="other",
+        text="Clause-level: the literal text reaches the runtime only as the "
+             "string argument of an exact constructor (int, sympy.Integer/"
+             "Rational, Fraction, sympify(rational=True); nsimplify only on "
+             "the digits-only path), never through float/Float/N/eval or a "
+             "closed-form-guessing nsimplify; the lexer's number branch keeps "
+             "the digit charset, emits a leading 0 alone and stops before a "
+             "second point. Does not decide numerical equality in general.",
+        ref="DESIGN.md §3 C05"),
     "C06": dict(
         technique="class-exhaustive transducer composition: the four stages "
                   "(quotify escape table, lexer back-quote branch, "
